@@ -123,29 +123,32 @@ func c13WellFormedCases(e c13Err, withWire bool, yield func(*c13Case)) {
 // c13WellFormedFixed: well-formed inputs that are not errors (OK status,
 // end-stream without error) and a few spec corner cases.
 func c13WellFormedFixed(yield func(*c13Case)) {
+	origin := "fixed"
 	mk := func(format, class, input string) {
-		yield(&c13Case{Phase: "wellformed", Format: format, Class: class, Expect: "silent", Input: []byte(input), Origin: "fixed"})
+		yield(&c13Case{Phase: "wellformed", Format: format, Class: class, Expect: "silent", Input: []byte(input), Origin: origin})
 	}
 	mkH := func(format, class string, h http.Header) {
-		yield(&c13Case{Phase: "wellformed", Format: format, Class: class, Expect: "silent", Hdr: c13HVOf(h), Origin: "fixed"})
+		yield(&c13Case{Phase: "wellformed", Format: format, Class: class, Expect: "silent", Hdr: c13HVOf(h), Origin: origin})
 	}
 	for _, m := range c13MetaAlphabet {
+		origin = "fixed, metadata " + m.Name
 		meta := c13Meta(m.Name)
-		mk("connect-end-stream", "ok-"+m.Name, c13EndStreamTree(nil, false, meta, false, true).text(c13JStyle{}))
-		mk("connect-end-stream", "ok-empty-metadata-"+m.Name, c13EndStreamTree(nil, false, meta, true, false).text(c13JStyle{Indent: true}))
+		mk("connect-end-stream", "ok", c13EndStreamTree(nil, false, meta, false, true).text(c13JStyle{}))
+		mk("connect-end-stream", "ok-empty-metadata", c13EndStreamTree(nil, false, meta, true, false).text(c13JStyle{Indent: true}))
 		kv := []c13KV{{"grpc-status", "0"}}
 		for _, h := range meta {
 			for _, v := range h.Value {
 				kv = append(kv, c13KV{strings.ToLower(h.Name), v})
 			}
 		}
-		mk("grpc-web-trailers", "ok-"+m.Name, c13Block(kv, ": "))
-		mkH("grpc-trailers", "ok-"+m.Name, c13HeaderOf(kv))
+		mk("grpc-web-trailers", "ok", c13Block(kv, ": "))
+		mkH("grpc-trailers", "ok", c13HeaderOf(kv))
 		kv = append(kv, c13KV{"grpc-message", ""})
-		mk("grpc-web-trailers", "ok-empty-message-"+m.Name, c13Block(kv, ":"))
-		mkH("grpc-trailers", "ok-empty-message-"+m.Name, c13HeaderOf(kv))
-		mkH("binary-metadata", "ok-"+m.Name, c13HeaderOf(kv))
+		mk("grpc-web-trailers", "ok-empty-message", c13Block(kv, ":"))
+		mkH("grpc-trailers", "ok-empty-message", c13HeaderOf(kv))
+		mkH("binary-metadata", "ok", c13HeaderOf(kv))
 	}
+	origin = "fixed"
 	okBin := c13StatusBin(0, "", nil)
 	mk("grpc-web-trailers", "ok-with-empty-details-bin", "grpc-status: 0\r\ngrpc-status-details-bin: "+okBin+"\r\n")
 	// Percent-encoding every byte is legal (gRPC: "Percent-Encoded" may be used for any byte).
